@@ -121,7 +121,7 @@ int g_pre_inv;          /* Inv held before the step (or the context was pristine
 int g_ret;
 
 /* witness copies for the trace */
-unsigned char wit_pre_flags, wit_pre_config[USCXML_MAX_NR_STATES_BYTES], wit_pre_history[USCXML_MAX_NR_STATES_BYTES];
+unsigned char wit_pre_flags, wit_pre_config[USCXML_MAX_NR_STATES_BYTES], wit_pre_history[USCXML_MAX_NR_STATES_BYTES], wit_pre_invocations[USCXML_MAX_NR_STATES_BYTES];
 unsigned char wit_post_flags, wit_post_config[USCXML_MAX_NR_STATES_BYTES], wit_post_history[USCXML_MAX_NR_STATES_BYTES];
 
 static int inv(const uscxml_ctx *c) { return legal_config(c->config) && hist_ok(c->history); }
@@ -200,7 +200,7 @@ void h_step(void) {
   g_pre_inv = pristine || running;
   g_pre = g_ctx;
   wit_pre_flags = g_ctx.flags;
-  for (int k = 0; k < USCXML_MAX_NR_STATES_BYTES; k++) { wit_pre_config[k] = g_ctx.config[k]; wit_pre_history[k] = g_ctx.history[k]; }
+  for (int k = 0; k < USCXML_MAX_NR_STATES_BYTES; k++) { wit_pre_config[k] = g_ctx.config[k]; wit_pre_history[k] = g_ctx.history[k]; wit_pre_invocations[k] = g_ctx.invocations[k]; }
 
   g_ret = uscxml_step(&g_ctx);
 
